@@ -135,3 +135,21 @@ Theorem C07_zero_mobility_fractions_constant :
                (f regime ph fb n ass frs Sd p nn lam M Lh sh t (fun j => y j t) (9 + 9 * n + g)%nat)) ->
   y (9 + 9 * n + g)%nat b = y (9 + 9 * n + g)%nat a.
 Proof. exact zero_mobility_fractions_constant. Qed.
+(* ---- round 5: the failure branch of the solver loop and of the bulk update (Model_minerals.solver_loop,
+   update_all; tied to the source by Inst_minerals_drv: update_loop_inst_*, update_all_inst_1_{2,3}, whose
+   generated code has a leaf `Err` for the failing step and whose translator adapter verifies that the stored
+   history is untouched on that path) ----------------------------------------------------------------------- *)
+From PV Require Import Proofs_driver.
+
+(* a failing solver step -- after any number of successful steps, whatever would have followed -- makes the
+   call raise, and the stored history is the one before the call *)
+Theorem C07_failed_solver_step_untouched : forall n chi (h : @history NumR) (pre : list (list R)) e (rest : list (res (list R))),
+  @update_steps NumR n chi h (map Ok pre ++ Err e :: rest) = (Err e, h).
+Proof. exact update_steps_failure. Qed.
+
+(* a failing mineral in a bulk update: minerals before it are updated, it and every later one are untouched *)
+Theorem C07_bulk_failure_leaves_later_minerals : forall n chi (pre : list (@history NumR * list R)) (h : @history NumR) e
+    (post_h : list (@history NumR)) (post_y : list (res (list R))) acc,
+  @update_all NumR n chi (map fst pre ++ h :: post_h) (map Ok (map snd pre) ++ Err e :: post_y) acc
+  = (Err e, map (fun m => step n chi (fst m) (Ok (snd m))) pre ++ h :: post_h).
+Proof. exact bulk_failure. Qed.
